@@ -144,7 +144,7 @@ class Layout:
         self.first_line_direction = first_line.resolved_dir
         return first_line, index
 
-    def set_text(self, text, justify=False):
+    def set_text(self, text, justify=False, break_words=False):
         index = text.find('\n')
         if index != -1:
             # Keep only the first line plus one character, we don't need more
@@ -163,7 +163,7 @@ class Layout:
         if letter_spacing == 'normal':
             letter_spacing = 0
 
-        word_breaking = (
+        word_breaking = break_words or (
             self.style['overflow_wrap'] in ('anywhere', 'break-word'))
 
         if self.text and (word_spacing or letter_spacing or word_breaking):
@@ -488,7 +488,7 @@ def split_first_line(text, style, context, max_width, justification_spacing,
         # memory of the last) prevents shaping characters (arabic, for
         # instance) from keeping their shape when wrapped on the next line with
         # pango layout. Maybe insert Unicode shaping characters in text?
-        layout.set_text(text)
+        layout.set_text(text, break_words=True)
         pango.pango_layout_set_width(layout.layout, int(max(0, max_width) * TO_UNITS))
         pango.pango_layout_set_wrap(layout.layout, PANGO_WRAP_MODE['WRAP_CHAR'])
         first_line, index = layout.get_first_line()
